@@ -6,8 +6,8 @@ import numpy as np
 from harness import common as C
 from harness import zoo as Z
 
-ANCHORS = ["T7hist", "T7mic", "T7inplace"]
-MODELS = ["Mic", "MicCase"]
+ANCHORS = ["T7hist", "T7mic", "T7inplace", "T5flag"]
+MODELS = ["Mic", "MicCase", "FlagCase"]
 RULE = ("random operation histories over {fit(D_i), transform(D_j), inverse_transform, components, scores, metrics, compute, serialize, "
         "rotator.fit(model), bootstrapper.fit(model)} applied to one model object (length <= 12 quick, <= 40 thorough), data sets of equal and "
         "different structure, every model class; after each history the answers are compared with a fresh model fitted on the last data set; "
@@ -389,6 +389,8 @@ def run(ctx):
     run_rotator_histories(ctx, rng, ctx.n(12, 200))
     from harness import mic
     mic.run(ctx, "C14", ctx.n(150, 1500))
+    from harness import flag
+    flag.run(ctx, "C14", ctx.n(30, 300))
     ctx.oblige("oracle:answers after any history equal a fresh model fitted on the last data; inputs and model untouched", "oracle", not ctx.violations)
 
 
